@@ -445,5 +445,118 @@ example :
        (2, fileImage .v2 2 [Entry.mk' .v2 Driver.crc32 [3] 3]),
        (3, fileImage .v2 3 [Entry.mk' .v2 Driver.crc32 [4] 1])]).map (·.1) = [1, 3] := by decide +kernel
 
+/-! ## file names, listing order, foreign files in the directory -/
+
+/-- `listing_order_eq_sequence_order_partial`: for sequences BELOW 2^32 the listing order of the
+    rotator's file names (byte-wise order of `wal-{:08x}.wal`) is the order of the sequences … -/
+theorem listing_order_eq_sequence_order_partial (a b : Nat) (ha : a < 2 ^ 32) (hb : b < 2 ^ 32) :
+    nameLt (walName a) (walName b) = decide (a < b) := by
+  rw [walName_small a ha, walName_small b hb, nameLt_append_left,
+    nameLt_append_right _ _ _ (by rw [hexW_length, hexW_length])]
+  exact nameLt_hexW 8 a b (by simpa using ha) (by simpa using hb)
+
+/-- … and exactly at 2^32 it stops: `wal-100000000.wal` is listed BEFORE `wal-ffffffff.wal`
+    (the name grows by a digit).  Nothing in the current code depends on the listing order of WAL
+    names (recovery sorts by parsed sequence, truncation identifies the open file by its name). -/
+theorem listing_order_breaks_at_2_32 :
+    nameLt (walName (2 ^ 32)) (walName (2 ^ 32 - 1)) = true ∧
+    nameLt (walName (2 ^ 32 - 1)) (walName (2 ^ 32)) = false := by decide +kernel
+
+-- the names at the boundaries, and what `parse_wal_sequence` makes of near-WAL names
+example : walName 255 = "wal-000000ff.wal".toUTF8.toList.map (·.toNat) := by decide +kernel
+example : parseSeq (walName (2 ^ 64 - 1)) = some (2 ^ 64 - 1) ∧ parseSeq (walName (2 ^ 32)) = some (2 ^ 32) ∧
+    parseSeq (walName 0) = some 0 := by decide +kernel
+example :
+    parseSeq ("wal-0000000A.wal".toUTF8.toList.map (·.toNat)) = some 10 ∧          -- upper case: an alias of sequence 10
+    parseSeq ("wal-+5.wal".toUTF8.toList.map (·.toNat)) = some 5 ∧                -- leading '+', no padding
+    parseSeq ("wal-zzzzzzzz.wal".toUTF8.toList.map (·.toNat)) = none ∧
+    parseSeq ("wal-0000000g.wal".toUTF8.toList.map (·.toNat)) = none ∧
+    parseSeq ("wal-00000001.wal.tmp".toUTF8.toList.map (·.toNat)) = none ∧
+    parseSeq ("wal-.wal".toUTF8.toList.map (·.toNat)) = none ∧
+    parseSeq ("wal-10000000000000000.wal".toUTF8.toList.map (·.toNat)) = none ∧  -- 2^64: overflow
+    parseSeq [] = none ∧ parseSeq ("wal-manifest.json".toUTF8.toList.map (·.toNat)) = none := by
+  decide +kernel
+
+/-- `truncate_never_removes_active`: for EVERY directory (any sequences, any foreign files, any
+    listing order) and every threshold, the file whose name is the open writer's name survives
+    `truncate_before` -/
+theorem truncate_never_removes_active (fmt : Format) (crc : Bytes → Nat) (T : Nat) (dir : Dir)
+    (active : Name) (b : Bytes) (h : (active, b) ∈ dir) :
+    (active, b) ∈ truncateBeforeD fmt crc T (some active) dir := by
+  unfold truncateBeforeD
+  rw [List.mem_filter]
+  exact ⟨h, by simp⟩
+
+/-- truncation over a directory with foreign files: nothing is added or altered, and every entry
+    stamped later than `T` that recovery returned before is returned after -/
+theorem truncate_keeps_newer_dir (fmt : Format) (crc : Bytes → Nat) (T : Nat) (active : Option Name)
+    (dir : Dir) :
+    (truncateBeforeD fmt crc T active dir).Sublist dir ∧
+    ∀ e ∈ recoverAllD fmt crc dir, T < e.ts → e ∈ recoverAllD fmt crc (truncateBeforeD fmt crc T active dir) := by
+  refine ⟨List.filter_sublist, fun e he ht => ?_⟩
+  rw [mem_recoverAllD] at he ⊢
+  obtain ⟨p, hp, hs, hx⟩ := he
+  refine ⟨p, ?_, hs, hx⟩
+  unfold truncateBeforeD
+  rw [List.mem_filter]
+  refine ⟨hp, ?_⟩
+  cases hd : deletable fmt crc T p.2 with
+  | false => simp
+  | true =>
+    have := deletable_filter fmt crc T p.2 hd
+    have hmem : e ∈ (fileEntries fmt crc p.2).filter (fun e => decide (T < e.ts)) := by
+      rw [List.mem_filter]; exact ⟨hx, by simpa using ht⟩
+    rw [this] at hmem
+    cases hmem
+
+/-- a damaged or foreign file never hides the entries of the WAL files of the directory -/
+theorem files_independent_dir (fmt : Format) (crc : Bytes → Nat) (a b : Dir) (n : Name) (f f' : Bytes)
+    (p : Name × Bytes) (hp : p ∈ a ++ b) (hs : (parseSeq p.1).isSome) :
+    ∀ e ∈ fileEntries fmt crc p.2,
+      e ∈ recoverAllD fmt crc (a ++ (n, f) :: b) ∧ e ∈ recoverAllD fmt crc (a ++ (n, f') :: b) := by
+  intro e he
+  have hm : ∀ g, p ∈ a ++ (n, g) :: b := by
+    intro g
+    rcases List.mem_append.mp hp with h | h
+    · exact List.mem_append_left _ h
+    · exact List.mem_append_right _ (List.mem_cons_of_mem _ h)
+  exact ⟨(mem_recoverAllD fmt crc _ e).mpr ⟨p, hm f, hs, he⟩, (mem_recoverAllD fmt crc _ e).mpr ⟨p, hm f', hs, he⟩⟩
+
+/-- recovery ignores every name that does not parse as a WAL file -/
+theorem foreign_files_ignored (fmt : Format) (crc : Bytes → Nat) (a b : Dir) (n : Name) (f : Bytes)
+    (hn : parseSeq n = none) : recoverAllD fmt crc (a ++ (n, f) :: b) = recoverAllD fmt crc (a ++ b) := by
+  unfold recoverAllD walFiles
+  rw [List.filterMap_append, List.filterMap_cons, hn, List.filterMap_append]
+  rfl
+
+def bytesOf (s : String) : Bytes := s.toUTF8.toList.map (·.toNat)
+
+/-- the variant that spares "whichever name comes last in the listing" instead of the open
+    writer's own name: (1) the open file is `wal-100000000.wal` and `wal-ffffffff.wal` (an older
+    file) is listed after it; (2) a foreign file `wal-manifest.json` is listed after the open file
+    `wal-00000001.wal`.  In both directories `truncate_before(5)` with all stamps ≤ 5 deletes the
+    ACTIVE file -/
+theorem truncate_last_listed_counterexample :
+    let e := Entry.mk' .v2 Driver.crc32 [1] 1
+    let d1 : Dir := [(walName (2 ^ 32), fileImage .v2 (2 ^ 32) [e]), (walName (2 ^ 32 - 1), fileImage .v2 (2 ^ 32 - 1) [e])]
+    let d2 : Dir := [(walName 1, fileImage .v2 1 [e]), (bytesOf "wal-manifest.json", [123, 125])]
+    lastListed d1 = some (walName (2 ^ 32 - 1)) ∧
+    (truncateBeforeD .v2 Driver.crc32 5 (lastListed d1) d1).map (·.1) = [walName (2 ^ 32 - 1)] ∧
+    (truncateBeforeD .v2 Driver.crc32 5 (some (walName (2 ^ 32))) d1).map (·.1) = [walName (2 ^ 32)] ∧
+    (truncateBeforeD .v2 Driver.crc32 5 (lastListed d2) d2).map (·.1) = [bytesOf "wal-manifest.json"] ∧
+    (truncateBeforeD .v2 Driver.crc32 5 (some (walName 1)) d2).map (·.1) = [walName 1, bytesOf "wal-manifest.json"] := by
+  decide +kernel
+
+/-- a new rotator over a directory continues after the highest sequence that parses — also
+    across the name-width change at 2^32 — and panics ("WAL sequence overflow") on its first rotate
+    when a file with sequence 2^64 - 1 exists (model outcome `none`) -/
+theorem new_rotator_at_boundaries :
+    let e := Entry.mk' .v2 Driver.crc32 [1] 1
+    ((DRot.new [(walName (2 ^ 32 - 1), fileImage .v2 (2 ^ 32 - 1) [])]).append .v2 100 e).map (fun r => r.dir.map (·.1))
+      = some [walName (2 ^ 32), walName (2 ^ 32 - 1)] ∧
+    ((DRot.new [(bytesOf "wal-+5.wal", []), (bytesOf "zzz", [])]).append .v2 100 e).map (fun r => r.cur) = some (some 6) ∧
+    (DRot.new [(walName (2 ^ 64 - 1), [])]).append .v2 100 e = none := by
+  decide +kernel
+
 end C10
 end RedisVerif
